@@ -81,13 +81,16 @@ def programs(tier):
                     out.append((kind, 'tree', replace_leaf(t, i, v)))
         for w in ('IF(TRUE,%s,0)', 'IF(FALSE,0,%s)', 'SUM(%s,1)', 'IFERROR(%s,0)', 'ROUND(%s,9)', 'SUM(1,IF(TRUE,%s+2,0))', 'IFERROR(1/0,%s)', 'MAX(%s,0)', '(%s)', '-(-(%s))'):
             out.append((kind, 'wrap', w))
+        # the same volatile call written twice (and three times) in one formula: every occurrence is fresh
+        for w in ('%s+%s', 'IF(%s>0,%s,0)', 'SUM(%s,%s)', '(%s+%s+%s)/3*2', 'MAX(%s,1)+MIN(%s,1E+9)'):
+            out.append((kind, 'wrap', w))
     return out
 
 
 def prog_text(p):
     kind, k, x = p
     if k == 'wrap':
-        return x % VOL[kind]
+        return x.replace('%s', VOL[kind])
     return G.spell(x, 'safe')
 
 
@@ -107,6 +110,13 @@ def expected(p, vol_value):
             return N(round(vol_value, 9))
         if w == 'MAX(%s,0)':
             return N(max(vol_value, 0))
+        if kind in ('NOW', 'TODAY'):          # clock calls repeated in one formula all show the clock of the evaluation
+            if w in ('%s+%s', 'SUM(%s,%s)', '(%s+%s+%s)/3*2'):
+                return N(2 * vol_value)
+            if w == 'IF(%s>0,%s,0)':
+                return v
+            if w == 'MAX(%s,1)+MIN(%s,1E+9)':
+                return N(2 * vol_value)
         return None
 
     def sub(t):
@@ -192,11 +202,20 @@ def run_formula(case):
                 Clock.now += _dt.timedelta(days=1)
             else:
                 ex += 1
+                before = np.random.get_state()[2]
                 try:
                     got = classify(np.asarray(ev(), object).ravel()[0])
                 except Exception as e:
                     fails.append(Fail('escape', got=exc_name(e), exp='a value', hist=h, **desc))
                     break
+                if kind in ('RAND', 'RB') and text.count(VOL[kind]) > 1:
+                    # the call is written several times: one shared draw or one draw per occurrence are both fine; at least one fresh draw
+                    if np.random.get_state()[2] == before:
+                        fails.append(Fail('frozen-or-wrong-draw', got='no draw consumed', exp='a fresh draw', hist=h, **desc))
+                        break
+                    twin.set_state(np.random.get_state())
+                    oc.add('%s:%s' % (kind, got[0] if got[0] != 'e' else got[1]))
+                    continue
                 if kind in ('NOW', 'TODAY'):
                     vv = serial(Clock.now, kind)
                     exp = expected(p, vv)
